@@ -473,7 +473,7 @@ def label_molecules(ck):
     # that the bond table has exactly that order; neighbours alternate C, O, H, N
     from chython import MoleculeContainer
     import itertools as _it
-    for k in (1, 2, 3, 4):
+    for k in ((1, 2, 3, 4) if ck.tier == 'quick' else (1, 2, 3, 4, 5)):
         for seq in _it.product((1, 2, 3, 4, 8), repeat=k):
             if ck.tier == 'quick' and k == 4 and (hash_seq(seq) + ck.seed) % 3:
                 continue
@@ -1505,6 +1505,27 @@ def stereo_smarts(rng, n):
     return out
 
 
+def show_parse_state(text):
+    """the record parser(smarts_tokenize(text), False) returns, in the text form of SmartsFull.show_parse_state"""
+    from chython.files.daylight.tokenize import smarts_tokenize
+    from chython.files.daylight.parser import parser
+    from chython.containers.bonds import QueryBond
+    try:
+        pr = parser(smarts_tokenize(text), False)
+    except Exception as e:
+        return sexn(e)
+    def pl(v):
+        if isinstance(v, QueryBond):
+            return 'q' + zs(v.order) + sbool(v.in_ring)
+        if isinstance(v, list):
+            return zs(v)
+        return 'i' + str(v)
+    return ';'.join([','.join(f'({n}.{m}.{pl(b_)})' for n, m, b_ in pr['bonds']),
+                     ','.join(f'{i}:{sbool(v)}' for i, v in pr['stereo_atoms'].items()),
+                     ','.join(f'{n}:{{' + '.'.join(f'{m}:{sbool(v)}' for m, v in d.items()) + '}' for n, d in pr['stereo_bonds'].items()),
+                     str(len(pr['atoms']))])
+
+
 def corr_full(ck):
     rng = random.Random(f'{ck.seed}:c08-full')
     fixed = ['', 'F/C=1=1', 'F/C1=1', 'F/C=,#1=,#1', 'C/C=C(/C)C(/C)=C/C', 'F/C(=C/F)=C/F', 'C/C=C/C-C/C=C/C', 'F/C(/Cl)=C/F', 'FC(/Cl)=C/F', 'F/C=C(/Cl)\\F', 'F/C=C/F', 'F/C=C\\F', 'F\\C=C\\F', 'F\\C=C/F', 'FC=CF', 'C/C=,#C/C', 'C/C=,#C\\C', 'C/C!-C/C', 'C/C!-C\\C', 'C/C=;@C/C', 'C/C=;!@C\\C',
@@ -1525,11 +1546,41 @@ def corr_full(ck):
             if r.startswith('!') and r not in ('!A', '!S', '!V'):
                 report_crash(ck, t)
         bt.add(f'b_full {lst(part, cstr)} {cstr(chr(10).join(rows))}', (part, rows))
+    # the atom numbers: explicit ones kept, fresh ones above them, masked atoms by their rank (process-wide counter)
+    def real_numbers(t):
+        from chython import smarts
+        try:
+            q = smarts(t)
+        except Exception as e:
+            return sexn(e)
+        nums = list(q._atoms)
+        masked = sorted(n for n in nums if n > 10 ** 9)
+        return ','.join(f'm{masked.index(n)}' if n > 10 ** 9 else str(n) for n in nums)
+    extra_n = ['[C:7]C[N;M:2][O;M]C[S;M]', '[C:3][C:1]C', 'C[C:5]C', '[C;M][C;M]', '[C:2]C[C:2]', 'C(C)[N:4]', 'CCC', '[A:9][M;M][C,N:1]O']
+    texts_n = [t for t in dict.fromkeys(extra_n + texts) if t]
+    for i in range(0, len(texts_n), 25):
+        part = texts_n[i:i + 25]
+        rows = [real_numbers(t) for t in part]
+        for t, r in zip(part, rows):
+            if not r.startswith('!'):
+                ck.count('numbers:' + ('masked' if 'm' in r else 'explicit' if ':' in t else 'fresh'))
+                nums = r.split(',')
+                if len(set(nums)) != len(nums):
+                    ck.counterexample('smarts-atom-numbers-distinct', 'smarts() gave two atoms the same number', {'smarts': t}, r, 'distinct numbers', 'definition')
+        bt.add(f'b_numbers {lst(part, cstr)} {cstr(chr(10).join(rows))}', (part, rows))
+    # the intermediate state: what parser(smarts_tokenize(text), False) returns (bonds in order, stereo_atoms, stereo_bonds)
+    texts_p = [t for t in texts if t]
+    for i in range(0, len(texts_p), 20):
+        part = texts_p[i:i + 20]
+        rows = [show_parse_state(t) for t in part]
+        for t, r in zip(part, rows):
+            ck.count('parse-state:' + (r[:2] if r.startswith('!') else 'ok'))
+        bt.add(f'b_parse_state {lst(part, cstr)} {cstr(chr(10).join(rows))}', (part, rows))
     size = sum(len(c) for c in bt.cases) / max(len(bt.cases), 1)
     ok, failing, log = coqcases.run_cases(bt.name, IMPORTS + ' SmartsFull', bt.cases, shard=max(10, int(120000 / max(size, 1))), timeout=900)
     bad = [bt.meta[i] for i in failing]
-    good = conclude(ck, 'smarts() == smarts_full (atoms with stereo marks; bonds with orders, ring mark and cis/trans flag; exception class) on direction-mark patterns '
-                        'and generated SMARTS', bt, ok, bad, log)
+    good = conclude(ck, 'smarts() == smarts_full (atoms with stereo marks; bonds with orders, ring mark and cis/trans flag; exception class) and the intermediate '
+                        'parser record (bonds in order, stereo_atoms, stereo_bonds) == smarts_parse, on direction-mark patterns and generated SMARTS', bt, ok, bad, log)
     if not good:
         for part, _ in bad[:10]:
             for t in part:
